@@ -31,14 +31,19 @@ META = dict(
                "an AST scan shows they contain no partial operation (theorem over the table). Tied to the code by "
                "differential execution of the real SemanticCheckAnalyzer and the real lint on generated and exhaustive "
                "small-scope methods; the oracle checks the named item kind per offending line in the lint output. Theorem "
-               "lint_history_is_pure: over any protocol-conforming history of registrations (with the engine's data gone or kept), "
+               "lint_history_is_pure: over EVERY history of registrations (with the engine's data gone or kept), "
                "definition updates and lints by any sessions each lint equals the pure function of (current definition, "
-               "text of that call); a history stream drives the real aggregator message handlers (register, disconnect, "
+               "text of that call) — for the code with fixes/C19-uodinfo-clears-analysis-cache.diff; for the code before "
+               "it only under a protocol hypothesis (lint_history_is_pure_asis), with a decided witness of the stale lint "
+               "(lint_history_asis_stale_after_kept_reregistration); a probe finds which of the two the code is. A history stream drives the real aggregator message handlers (register, disconnect, "
                "UodInfo) and the real lint with one engine and several editor sessions (same uri, independent version "
                "counters) while the tag and command sets change.",
     level_note="The model follows the code with fixes/C19-undefined-tag-falls-through.diff (committed) and "
-               "fixes/C19-tag-unit-unknown-to-unit-table.diff (proposed: a tag published with a unit this installation's "
-               "unit table lacks made the analysis raise; on a tree without it the check reports that violation). Hypotheses: "
+               "fixes/C19-tag-unit-unknown-to-unit-table.diff (committed). The lint-session model has two variants — with "
+               "and without fixes/C19-uodinfo-clears-analysis-cache.diff (handle_UodInfoMsg clears create_analysis_input's "
+               "cache) — selected by a probe through the real handlers; without it the lints after a lint that fell between "
+               "a data-keeping re-registration and its UodInfo keep the previous tag/command sets (reported under their own "
+               "keys). Hypotheses: "
                "the unit table is well-formed (checked on the regenerated table), command-node names are not blank and "
                "Simulate-off arguments are stripped (parser guarantees, checked per case). Not modelled, covered by the "
                "oracle only (any exception is a violation): the parser, create_analysis_input, AnalyzerItem ranges, "
@@ -49,6 +54,7 @@ META = dict(
 )
 MODULE = "OPM.Properties.C19"
 REQUIRED = ["OPM.C19.analyzeAll_total", "OPM.C19.lintAll_keeps_all_diagnostics", "OPM.C19.lint_history_is_pure",
+            "OPM.C19.lint_history_is_pure_asis", "OPM.C19.lint_history_asis_stale_after_kept_reregistration",
             "OPM.C19.unmodelled_analyzers_have_no_partial_operation",
             "OPM.C19.analyze_total", "OPM.C19.lint_keeps_all_diagnostics", "OPM.C19.undefined_tag_flagged",
             "OPM.C19.undefined_simulate_off_tag_flagged", "OPM.C19.undefined_command_flagged",
@@ -686,8 +692,8 @@ def history_cases(ctx: Check) -> list[dict]:
       uodinfo          handle_UodInfoMsg with the definition (tags, commands)
       lint {session}   one of several editor sessions lints its document (same uri; independently counted versions or
                        version None; open / change / save)
-    The sets change between lints of the SAME document; the texts change with the set fixed; sessions interleave.
-    Protocol: one UodInfo after each registration; no lint between a keep-registration and its UodInfo."""
+    The sets change between lints of the SAME document; the texts change with the set fixed; sessions interleave; lints
+    also fall between a registration (of either kind) and its UodInfo."""
     rng = ctx.rng
     out = []
     for _ in range(ctx.n(70, 1500)):
@@ -707,8 +713,8 @@ def history_cases(ctx: Check) -> list[dict]:
             if r < 0.35:      # the engine re-registers with another definition; the documents are untouched
                 keep = rng.random() < 0.5
                 steps.append({"op": "register", "keep": keep})
-                if not keep and rng.random() < 0.2:
-                    steps.append(sess.lint(False))
+                if rng.random() < (0.3 if keep else 0.2):   # a lint in the window before the UodInfo arrives
+                    steps.append(rng.choice(sessions).lint(edit=rng.random() < 0.3))
                 if rng.random() < 0.5:   # drop / add one name the text may use
                     tags = [t for t in tags if rng.random() < 0.6] or [[rng.choice(H_TAGS), None]]
                     cmds = [c for c in cmds if rng.random() < 0.6] or [[rng.choice(H_CMDS), None]]
@@ -732,6 +738,10 @@ def history_cases(ctx: Check) -> list[dict]:
             for again in (fresh, kept):     # the set shrinks / grows over a re-registration without / with the old data kept
                 out.append({"steps": [fresh, full, lint, again, less, lint, lint, again, full, lint], "kind": "history"})
                 out.append({"steps": [fresh, less, lint, again, full, lint], "kind": "history"})
+            # a lint in the window between the registration and its UodInfo
+            out.append({"steps": [fresh, full, lint, kept, lint, less, lint, lint], "kind": "history"})
+            out.append({"steps": [fresh, less, lint, kept, lint, full, lint], "kind": "history"})
+            out.append({"steps": [fresh, full, lint, fresh, lint, less, lint], "kind": "history"})
         # two sessions whose version counters coincide: A opens, B opens, A edits (valid), B edits (broken), A saves
         ok_text, bad_text = "Mark: start\nMark: done", "Mark: start\n" + ref_line.replace(name, "Xyzzy" if kind == "tag" else "Frobnicate")
         bad_refs = [{"line": 1, "kind": kind, "name": "Xyzzy" if kind == "tag" else "Frobnicate"}]
@@ -758,7 +768,22 @@ def aggregator_harness():
     return _AGG
 
 
-def observe_history(case: dict, index: int) -> dict:
+PROBE_INDEX = -1     # engine index 0 of the aggregator harness is used by the probe only
+
+
+def uodinfo_clears_cache() -> bool:
+    """Which code is this — with or without fixes/C19-uodinfo-clears-analysis-cache.diff?  Black-box probe through the
+    real handlers: the engine re-registers while its data is still held, an editor lints in the window, then the UodInfo
+    removes the command the text uses: is it reported now?"""
+    full = {"op": "uodinfo", "tags": [["Pressure", None]], "cmds": [["Fill", None]]}
+    less = {"op": "uodinfo", "tags": [["Level", None]], "cmds": [["Drain", None]]}
+    lint = {"op": "lint", "session": 0, "text": "Fill: 5", "refs": [], "version": None}
+    o = observe_history({"steps": [{"op": "register", "keep": False}, full, lint, {"op": "register", "keep": True}, lint,
+                                   less, lint]}, PROBE_INDEX, repaired=True)
+    return (0, "Undefined command") in o["lints"][-1]["lint_errors"]
+
+
+def observe_history(case: dict, index: int, repaired: bool) -> dict:
     """Drive the real aggregator handlers (`handle_RegisterEngineMsg`, `handle_EngineDisconnected`, `handle_UodInfoMsg`)
     and the real `lint` (whose `fetch_uod_info` reads that aggregator) through the history, the way production changes
     lint's inputs.  Nothing is patched: the aggregator is installed where `deps.get_aggregator()` finds it."""
@@ -775,10 +800,12 @@ def observe_history(case: dict, index: int) -> dict:
     agg_deps._server = h.agg
     workspaces: dict[int, Workspace] = {}
     docs: dict[int, Document] = {}
-    ops: list[str] = []
-    outs: list[str] = []
+    ops: list[str] = ["sess-mode\t" + ("repaired" if repaired else "asis")]
+    outs: list[str] = ["ok"]
     lints: list[dict] = []
     refused: list[str] = []
+    shadow = window = False   # window: a kept registration waits for its UodInfo; shadow: a lint fell into such a
+    #                           window and no registration has happened since (the unrepaired code is stale there)
     cur_tags: list = []
     cur_cmds: list = []
     defined = False       # by the protocol: does the aggregator hold a definition for the engine now?
@@ -793,6 +820,7 @@ def observe_history(case: dict, index: int) -> dict:
                 if not getattr(reply, "success", False) or getattr(reply, "engine_id", None) != engine_id:
                     refused.append(f"step {len(ops)}: handle_RegisterEngineMsg answered {reply!r}")
                 present = True
+                window, shadow = keep, False
                 defined = defined and keep
                 if not keep:
                     cur_tags, cur_cmds = [], []
@@ -810,6 +838,7 @@ def observe_history(case: dict, index: int) -> dict:
                 if type(reply).__name__ != "SuccessMessage":
                     refused.append(f"step {len(ops)}: handle_UodInfoMsg answered {reply!r}")
                 defined = True
+                window = False
                 ref = observe({"text": "", "tags": cur_tags, "cmds": cur_cmds}, editor=False)
                 ops += ref["tag_ops"] + ref["cmd_ops"] + ["sess-uodinfo"]
                 outs += ["ok"] * (len(ref["tag_ops"]) + len(ref["cmd_ops"]) + 1)
@@ -818,6 +847,7 @@ def observe_history(case: dict, index: int) -> dict:
                               editor=False)
                 ops += ref["sim_ops"] + ref["node_ops"] + ["sess-lint"]
                 sid = st.get("session", 0)
+                shadow = shadow or (window and defined)
                 ws = workspaces.setdefault(sid, Workspace(root_uri="", endpoint=None, config=None))
                 doc = docs.get(sid)
                 if doc is None or doc.source != st["text"] or doc.version != st["version"]:
@@ -830,7 +860,7 @@ def observe_history(case: dict, index: int) -> dict:
                     text, err_lines, errs = "err:lint-raised:" + type(e).__name__, None, set()
                 outs += ["ok"] * (len(ref["sim_ops"]) + len(ref["node_ops"])) + [text]
                 lints.append({"step": len(lints), "session": sid, "version": st["version"], "text": st["text"],
-                              "refs": st["refs"], "defined": defined,
+                              "refs": st["refs"], "defined": defined, "stale_before_repair": shadow and not window,
                               "tags": [n for n, _ in cur_tags], "cmds": [n for n, _ in cur_cmds],
                               "lint": text, "lint_errors": errs})
     finally:
@@ -859,6 +889,8 @@ def judge_history(case: dict, obs: dict) -> list[Failure]:
             fails.append(Failure("history:lint-replaces-diagnostics", pub,
                                  f"{who} returned {ln['lint']} although a definition is available"))
             continue
+        # the one situation the code before fixes/C19-uodinfo-clears-analysis-cache.diff gets wrong has its own keys
+        stale = "after-lint-between-kept-reregistration-and-uodinfo:" if ln["stale_before_repair"] else ""
         n_lines = len(ln["text"].split("\n"))
         beyond = sorted(x for x in ln["lint_errors"] if x[0] >= n_lines)
         if beyond:
@@ -869,11 +901,11 @@ def judge_history(case: dict, obs: dict) -> list[Failure]:
             code = "Undefined tag" if r["kind"] == "tag" else "Undefined command"
             what = "undefined-tag" if r["kind"] == "tag" else "undefined-command"
             if r["name"] not in known and (r["line"], code) not in ln["lint_errors"]:
-                fails.append(Failure(f"history:no-diagnostic-on-line:{what}", pub,
+                fails.append(Failure(f"history:{stale}no-diagnostic-on-line:{what}", pub,
                                      f"{who}: line {r['line']} refers to {r['name']!r}, which is not defined now, and "
                                      f"carries no {code!r} error (error diagnostics: {sorted(ln['lint_errors'])})"))
             if r["name"] in known and (r["line"], code) in ln["lint_errors"]:
-                fails.append(Failure(f"history:diagnostic-for-defined-name:{what}", pub,
+                fails.append(Failure(f"history:{stale}diagnostic-for-defined-name:{what}", pub,
                                      f"{who}: line {r['line']} refers to {r['name']!r}, which is defined now, and carries "
                                      f"a {code!r} error"))
     return fails
@@ -938,7 +970,8 @@ def run(ctx: Check) -> int:
                 "handlers: one engine and 1–3 editor sessions (documents with the same uri, independently counted versions "
                 "1,2,3… or version None; open / edit / save, interleaved) linting while the engine re-registers with other "
                 "tag / command sets — after a completed disconnect (engine data gone) or without one (engine data of the "
-                "previous session still present) — each registration followed by its UodInfo; oracle per lint call "
+                "previous session still present) — each registration followed by its UodInfo, lints also in the window between "
+                "the two; oracle per lint call "
                 "w.r.t. the current set and the text of that call; (5) malformed text (mutated lines, random unicode lines, odd indentation). "
                 "The oracle looks at the lint output per offending line. Non-trivial = the analyzers "
                 "produce at least one item or raise.")
@@ -980,7 +1013,9 @@ def run(ctx: Check) -> int:
             ctx.fail(f)
     # -- stream "history": one engine, several editor sessions, linted repeatedly while the definition changes
     hcases = history_cases(ctx)
-    hobs = {id(c): observe_history(c, i) for i, c in enumerate(hcases)}
+    repaired = uodinfo_clears_cache()
+    ctx.extra["uodinfo_clears_analysis_cache"] = repaired     # which variant of the session model the code is tied to
+    hobs = {id(c): observe_history(c, i, repaired) for i, c in enumerate(hcases)}
     hpub = [{"steps": c["steps"]} for c in hcases]
     hby = {id(p): c for p, c in zip(hpub, hcases)}
     hout, hmod = ctx.correspond(
@@ -993,6 +1028,8 @@ def run(ctx: Check) -> int:
         ctx.count("history:re-registrations-with-engine-data-kept",
                   sum(1 for k, st in enumerate(c["steps"]) if st["op"] == "register" and st.get("keep") and k > 0))
         ctx.count("history:sessions", len({ln["session"] for ln in o["lints"]}))
+        ctx.count("history:lints-after-a-lint-between-kept-reregistration-and-uodinfo",
+                  sum(1 for ln in o["lints"] if ln["stale_before_repair"]))
         seen: dict = {}
         for ln in o["lints"]:      # another session linted another text under the same version number before
             if any(t != ln["text"] for (sid, t) in seen.get(ln["version"], []) if sid != ln["session"]):
@@ -1026,7 +1063,9 @@ def replay(obj) -> int:
         print(json.dumps(obj, indent=1)[:4000])
         return 0
     if "steps" in c:   # a case of the history stream
-        o = observe_history(c, 0)
+        repaired = uodinfo_clears_cache()
+        print("this code " + ("clears" if repaired else "does not clear") + " the analysis-input cache in handle_UodInfoMsg")
+        o = observe_history(c, 0, repaired)
         m = drive("Analyzer", [o["ops"]])
         mi = [x for op, x in zip(o["ops"], m[0]) if op == "sess-lint"]
         k = 0
